@@ -33,3 +33,43 @@ pub fn string_from_ascii(v: Vec<u8>) -> (r: String)
 {
     String::from_utf8(v).expect("Invalid UTF-8 in decoded contig name")
 }
+
+/// the UTF-8 bytes of a &str
+pub uninterp spec fn str_bytes(s: &str) -> Seq<u8>;
+
+/// TRUSTED (std): str::to_string copies the bytes.
+#[verifier::external_body]
+pub fn str_to_string(s: &str) -> (r: String)
+    ensures
+        sbytes(&r) == str_bytes(s),
+{
+    s.to_string()
+}
+
+/// TRUSTED (std): String::new is empty.
+#[verifier::external_body]
+pub fn string_new() -> (r: String)
+    ensures
+        sbytes(&r).len() == 0,
+{
+    String::new()
+}
+
+/// TRUSTED (std): pushing the char of an ASCII byte appends exactly that byte (a byte >= 128 becomes a two-byte
+/// UTF-8 sequence: nothing is promised then).
+#[verifier::external_body]
+pub fn string_push_byte(s: &mut String, b: u8)
+    ensures
+        b < 128 ==> sbytes(final(s)) == sbytes(old(s)).push(b),
+{
+    s.push(b as char)
+}
+
+/// TRUSTED (std): String::clone copies the bytes.
+#[verifier::external_body]
+pub fn string_clone(s: &String) -> (r: String)
+    ensures
+        sbytes(&r) == sbytes(s),
+{
+    s.clone()
+}
